@@ -801,6 +801,9 @@ class QSerialization(DeconstructedSerialization):
     child_separators = {
         Q.OR: ' | ',
         Q.AND: ' & ',
+
+        # Django >= 4.1
+        'XOR': ' ^ ',
     }
 
     @classmethod
@@ -867,11 +870,6 @@ class QSerialization(DeconstructedSerialization):
 
         if num_children == 0:
             result.append('models.Q()')
-        elif num_children == 1:
-            child = value.children[0]
-
-            result.append('models.Q(%s=%s)' % (child[0],
-                                               serialize_to_python(child[1])))
         else:
             children = []
 
@@ -887,7 +885,7 @@ class QSerialization(DeconstructedSerialization):
                                     % (type(child), child))
 
             if len(children) == 1:
-                result.append(children)
+                result.append(children[0])
             elif len(children) > 1:
                 result.append(
                     '(%s)'
